@@ -48,7 +48,7 @@ fn cut(r: &mut Rng, n: usize) -> Vec<usize> {
     let base = n / k; let mut v = vec![base; k]; v[k - 1] += n - base * k; v
 }
 
-fn gen_tables(r: &mut Rng, o: &Opts, no_date_x: bool) -> (Catalog, String) {
+fn gen_tables(r: &mut Rng, o: &Opts, no_date_x: bool, dup: bool) -> (Catalog, String) {
     let ktys: Vec<ColTy> = o.get("ktys").unwrap_or("i64,i64,i64,str,i32,date").split(',').filter_map(ColTy::parse).collect();
     let xtys: Vec<ColTy> = o.get("xtys").unwrap_or("i64,i64,i64,i64,str,str,f64,i32,date").split(',').filter_map(ColTy::parse).collect();
     // a DATE compared with the untyped NULL a scalar subquery yields fails "Cannot coerce Date32 and Null" (an untyped-NULL
@@ -67,10 +67,24 @@ fn gen_tables(r: &mut Rng, o: &Opts, no_date_x: bool) -> (Catalog, String) {
     let mut ids1: Vec<i64> = (0..n1 as i64).collect(); r.shuffle(&mut ids1);
     let rows0: Vec<Vec<Val>> = (0..n0).map(|i| vec![Val::I(ids0[i]), nv(r, k0n, kty, kdom), nv(r, x0n, xty, xdom), nv(r, v0n, ColTy::I64, 6)]).collect();
     let rows1: Vec<Vec<Val>> = (0..n1).map(|i| vec![Val::I(ids1[i]), nv(r, k1n, kty, kdom), nv(r, y1n, xty, xdom), nv(r, w1n, ColTy::I64, 6)]).collect();
-    let t0 = TableSpec { name: "t0".into(), cols: vec![mkcol("id0", ColTy::I64, 0, true), mkcol("k0", kty, k0n, false), mkcol("x0", xty, x0n, false), mkcol("v0", ColTy::I64, v0n, false)], cuts: cut(r, n0), rows: rows0 };
+    // `outer:dup-rows` stratum: the outer table holds FULLY duplicate rows (2–4 copies of some rows, id0 included), shuffled so
+    // that copies land in the same batch as well as in different batches — the row-by-row subquery paths answer through a cache
+    // keyed by the whole outer row (subquery.rs set_correlated_cache / get_correlated_cache): only identical rows give a cache HIT
+    let (rows0, n0) = if dup && !rows0.is_empty() {
+        let mut out: Vec<Vec<Val>> = vec![];
+        for (i, row) in rows0.iter().enumerate() {
+            let copies = if i == 0 || r.chance(1, 2) { 2 + r.below(3) as usize } else { 1 };
+            for _ in 0..copies { out.push(row.clone()); }
+        }
+        if r.chance(2, 3) { r.shuffle(&mut out); }          // otherwise the copies stay adjacent (same batch, consecutive rows)
+        let n = out.len(); (out, n)
+    } else { (rows0, n0) };
+    let cuts0 = if dup && n0 >= 2 { let k = 1 + r.below(4.min(n0 as u64)) as usize; let base = n0 / k; let mut v = vec![base; k]; v[k - 1] += n0 - base * k; v } else { cut(r, n0) };
+    let t0 = TableSpec { name: "t0".into(), cols: vec![mkcol("id0", ColTy::I64, 0, !dup), mkcol("k0", kty, k0n, false), mkcol("x0", xty, x0n, false), mkcol("v0", ColTy::I64, v0n, false)], cuts: cuts0, rows: rows0 };
     let t1 = TableSpec { name: "t1".into(), cols: vec![mkcol("id1", ColTy::I64, 0, true), mkcol("k1", kty, k1n, false), mkcol("y1", xty, y1n, false), mkcol("w1", ColTy::I64, w1n, false)], cuts: cut(r, n1), rows: rows1 };
-    let desc = format!("kty:{} xty:{} k0null:{} x0null:{} k1null:{} y1null:{} n0:{} n1:{}", kty.name(), xty.name(), k0n, x0n, k1n, y1n,
-                       if n0 == 0 { "0" } else if n0 < 5 { "1-4" } else { "5+" }, if n1 == 0 { "0" } else if n1 < 5 { "1-4" } else { "5+" });
+    let desc = format!("kty:{} xty:{} k0null:{} x0null:{} k1null:{} y1null:{} n0:{} n1:{}{}", kty.name(), xty.name(), k0n, x0n, k1n, y1n,
+                       if n0 == 0 { "0" } else if n0 < 5 { "1-4" } else { "5+" }, if n1 == 0 { "0" } else if n1 < 5 { "1-4" } else { "5+" },
+                       if dup && n0 >= 2 { " outer:dup-rows" } else { "" });
     (Catalog { tables: vec![t0, t1] }, desc)
 }
 
@@ -284,7 +298,7 @@ pub fn main(o: &Opts) {
     if let Some(sql) = o.get("probe") {
         // `--opt probe="SELECT … FROM t0 …"`: the generated tables of this seed, the statement under each configuration
         let mut r = Rng::new(o.seed ^ 0xC23);
-        let (cat, desc) = gen_tables(&mut r, o, false);
+        let (cat, desc) = gen_tables(&mut r, o, false, o.get_usize("dup", 0) == 1);
         for t in &cat.tables {
             eprintln!("{} {:?} rows={} cuts={:?}", t.name, t.cols.iter().map(|c| format!("{}:{}", c.name, c.cty.name())).collect::<Vec<_>>(), t.rows.len(), t.cuts);
             if o.get_usize("show", 0) == 1 { for row in &t.rows { eprintln!("  {:?}", row); } }
@@ -305,7 +319,9 @@ pub fn main(o: &Opts) {
     while n < o.cases {
         let mut cr = r.fork();
         let f = gen_form(&mut cr, o);
-        let (cat, desc) = gen_tables(&mut cr, o, f.kind == "scalar_row");
+        // one statement in three runs over an outer table with fully duplicate rows (`--opt dup=0|1` forces it off / on)
+        let dup = match o.get_usize("dup", 2) { 0 => false, 1 => true, _ => k % 3 == 1 };
+        let (cat, desc) = gen_tables(&mut cr, o, f.kind == "scalar_row", dup);
         let q = build_query(&cat, &f, &mut cr);
         let mut base = cfg_names[k % cfg_names.len()].clone(); k += 1;
         // Parquet only for the IN / EXISTS forms: over Parquet the decorrelated scalar path trips a scan-schema defect
